@@ -38,6 +38,14 @@ PROPS = {
     "C05": prog("hist", HIST3, q(4, 3000, 120), t(5, 40000, 200, 120), assumptions=COMMON_ASSUME),
     "C06": prog("hist", HIST3, q(4, 3000, 120), t(5, 40000, 200, 120), assumptions=COMMON_ASSUME),
     "C07": prog("hist", HIST3, q(4, 3000, 120), t(5, 40000, 200, 120), assumptions=COMMON_ASSUME),
+    "C08": dict(kind="prog", parts=[dict(target="hist", configs=HIST3),
+                                   dict(target="comp", configs=["base", "dbg"],
+                                        quick=dict(shards=3, cases=6000, size=80),
+                                        thorough=dict(shards=6, cases=80000, size=80))],
+                quick=q(4, 3000, 100), thorough=t(5, 40000, 160, 120), assumptions=COMMON_ASSUME),
+    "C09": dict(kind="prog", parts=[dict(target="comp", configs=["base", "dbg"])],
+                probes=dict(glob="targets/probes/*.cpp", configs=["base"]),
+                quick=q(6, 8000, 80), thorough=t(8, 100000, 80, 120), assumptions=COMMON_ASSUME),
     "C12": prog("hist", HIST3, q(4, 3000, 100), t(5, 40000, 160, 120), assumptions=COMMON_ASSUME),
     "C15": prog("hist", ["base", "dbg"], q(5, 3000, 100), t(8, 40000, 120, 120), assumptions=COMMON_ASSUME),
     "C19": custom(pure),
